@@ -18,6 +18,10 @@ def make_chooser(spec):
         return PCTChooser(random.Random(spec[1]), depth=spec[2], est_steps=spec[3])
     if kind == "replay":
         return Chooser(prefix=spec[1], default="first")
+    if kind == "bounded":
+        from sim.sched import BoundedChooser
+
+        return BoundedChooser(prefix=spec[2], bound=spec[1])
     if kind == "first":
         return Chooser(default="first")
     raise ValueError(spec)
@@ -38,6 +42,43 @@ def run_one(job):
     r["chooser"] = chooser_spec
     r["opts"] = opts
     return r
+
+
+def run_search(job):
+    """preemption-bounded systematic search over one program, inside one worker process;
+    returns the distinct results and whether the search finished"""
+    from sim import explore
+    from sim.world import World
+
+    program, bound, max_runs, opts = job
+    seen = {}
+    state = {"exhaustive": False}
+    n = 0
+    try:
+        for res, state in explore.bounded(lambda ch: World(program, ch, **opts).run(), bound, max_runs):
+            n += 1
+            key = json.dumps(res["events"], sort_keys=True)
+            if key not in seen:
+                res["program"] = program
+                res["chooser"] = ("bounded", bound, res["decisions"])
+                res["opts"] = opts
+                seen[key] = res
+    except Exception:  # harness failure: report, never a verdict
+        import traceback
+
+        return {"results": [{"harness_error": traceback.format_exc(), "program": program, "chooser": ("bounded", bound)}], "runs": n, "exhaustive": False}
+    return {"results": list(seen.values()), "runs": n, "exhaustive": bool(state["exhaustive"])}
+
+
+def run_searches(jobs, procs=None):
+    global _pool
+    if not jobs:
+        return []
+    procs = procs or min(14, os.cpu_count() or 4)
+    if _pool is None:
+        ctx = mp.get_context("fork")
+        _pool = ctx.Pool(procs, initializer=_quiet, maxtasksperchild=400)
+    return _pool.map(run_search, jobs, chunksize=1)
 
 
 _pool = None
